@@ -6,7 +6,8 @@
 //	--mode hist    request histories through the in-process writer router with one shared
 //	               (day, fingerprint) cache and a fake ClickHouse client with scripted outcomes;
 //	--mode dates   the same router under time.Local = FixedZone(offset): the dates that reach
-//	               the client's proto.ColDate.
+//	               the client's proto.ColDate;
+//	--mode keys    the key serializer of the production announcement cache on pairs of 64-bit keys.
 //
 // Every random choice derives from --seed. Output: JSON lines.
 package main
@@ -22,7 +23,7 @@ import (
 )
 
 func main() {
-	mode := flag.String("mode", "labels", "labels | hist | dates")
+	mode := flag.String("mode", "labels", "labels | hist | dates | keys")
 	f := hx.ParseFlags()
 	config.Cloki = clconfig.New(clconfig.CLOKI_WRITER, nil, "", "")
 	out := hx.OpenOut(f.Out)
@@ -34,6 +35,8 @@ func main() {
 		runHist(f, out)
 	case "dates":
 		runDates(f, out)
+	case "keys":
+		runKeys(f, out)
 	default:
 		fmt.Fprintln(os.Stderr, "unknown mode", *mode)
 		os.Exit(2)
